@@ -72,7 +72,9 @@ def plan(tier, seed):
         P.add("poisson", shape=shape, accel=accel,
               calib=[int(pick(rng, [0, 0, int(rng.integers(1, 17))])) for _ in range(2)]
               if rng.random() < 0.7 else [int(rng.integers(1, 17))] * 2,
-              tol=pick(rng, [0.05, 0.1, 0.1, 0.5]), seed=int(rng.integers(0, 1000)),
+              tol=pick(rng, [0.05, 0.1, 0.1, 0.5]),
+              seed=int(pick(rng, [0, 0, 1, int(rng.integers(0, 1000)),
+                                  int(rng.integers(0, 1000)), int(rng.integers(0, 2 ** 31))])),
               crop=bool(rng.random() < 0.6),
               dtype=pick(rng, ["complex128", "complex128", "float64", "float32", "complex64"]),
               prior=int(rng.integers(0, 1 << 30)), adv=int(rng.integers(0, 1000)))
